@@ -8,6 +8,9 @@
   `Gen.spellings`, `Gen.reserved`, `Gen.lexIgnore` are regenerated from the source.
 -/
 import DDProofs.LexLayout
+import DDProofs.LexComments
+import DDProofs.LexNeeds
+import DDProofs.ParseBad
 import DDProps.C05
 open Std
 namespace DD
@@ -110,5 +113,149 @@ example : layoutOk {} exToks = true ∧ layoutOk { choice := fun _ => 1 } exToks
 example : spellWith { choice := fun i => i + 1, gap := fun _ => [] } exToks =
     "\\Ax',_y1:(a/\\b)\\/~c''=>True<=>ite(False,@-3,\\Ez:\\Sp/q:d#e^f=g-!h)" := by decide
 example : layoutOk { choice := fun i => i + 1, gap := fun _ => [] } exToks = true := by decide
+
+
+/-! ## where a blank is needed (maximal munch) -/
+
+/-- the side condition of the round trip, per pair of adjacent tokens: after a word (a name,
+`ite`, `TRUE`, `FALSE`, …) a blank is needed before a word or a number starting with an ASCII
+digit; after a number before a number; and between the operator spellings `& &`, `& &&`,
+`| |`, `| ||`, `/ \/`, `/ \A`, `/ \E`, `/ \S` — nowhere else: a number may be followed directly
+by a name (`7x` is `7`,`x`), every operator by a name or number, `!` by `=`, `=` by `=>`, … -/
+theorem C05_needsBlank_spec (t1 t2 : Tok) (a b : String) (h1 : t1.lexOk = true) (h2 : t2.lexOk = true)
+    (ha : a ∈ t1.spellings) (hb : b ∈ t2.spellings) :
+    needsBlank a b =
+      if t1.isWord then (t2.isWord || (t2.isNum && startsAscii b))
+      else if t1.isNum then t2.isNum
+      else clashPairs.contains (a, b) :=
+  needsBlank_spec t1 t2 a b h1 h2 ha hb
+
+/-- the operator spellings that can be extended by one more character, read off the regenerated
+table; no spelling extends another by more than one character -/
+theorem C05_clash_table :
+    (Gen.spellings.filterMap fun r =>
+      if (extChars r.1.toList).isEmpty then none else some (r.1, extChars r.1.toList)) =
+      [("&", ['&']), ("/", ['\\']), ("=", ['>']), ("-", ['>']), ("|", ['|'])] ∧
+    (Gen.spellings.flatMap fun r1 => Gen.spellings.filterMap fun r2 =>
+      if needsBlank r1.1 r2.1 then some (r1.1, r2.1) else none) = clashPairs ∧
+    (Gen.spellings.all fun r1 => Gen.spellings.all fun r2 =>
+      !(isPrefixChars r1.1.toList r2.1.toList && r1.1 != r2.1) ||
+      r2.1.toList.length == r1.1.toList.length + 1) = true :=
+  ⟨clash_table, clashPairs_eq, ext_by_one⟩
+
+/-- the blank IS needed there: where `needsBlank` holds, the glued text is not read as the two
+tokens — except `&` `&&` and `|` `||`, where `&&&` splits as `&&`,`&` into the same two tokens -/
+theorem C05_needsBlank_necessary (t1 t2 : Tok) (a b : String) (h1 : t1.lexOk = true) (h2 : t2.lexOk = true)
+    (ha : a ∈ t1.spellings) (hb : b ∈ t2.spellings) (hn : needsBlank a b = true)
+    (hex : (a, b) ∉ coincide) : tokenize (a ++ b) ≠ [t1, t2] :=
+  needsBlank_necessary t1 t2 a b h1 h2 ha hb hn hex
+
+example : needsBlank "x'" "y" = true ∧ needsBlank "x" "7" = true ∧ needsBlank "7" "x" = false ∧
+    needsBlank "7" "٣" = true ∧ needsBlank "x" "٣" = false ∧ needsBlank "ite" "(" = false ∧
+    needsBlank "!" "=" = false ∧ needsBlank "=" "=>" = false ∧ needsBlank "/" "\\/" = true ∧
+    needsBlank "\\A" "x" = false ∧ needsBlank "&" "&&" = true := by decide
+example : tokenize "7x" = [.number "7", .name "x"] ∧ tokenize "x7" = [.name "x7"] ∧
+    tokenize "/\\/" = [.op .and, .div] ∧ tokenize "&&&" = [.op .and, .op .and] ∧
+    tokenize "\\Ax':y" = [.forall_, .name "x'", .colon, .name "y"] := by decide
+/-- a layout is rejected exactly for the clash -/
+example : layoutOk { gap := fun _ => [] } [.name "a", .op .and, .op .and, .name "b"] = true ∧
+    layoutOk { choice := fun _ => 1, gap := fun _ => [] } [.name "a", .op .and, .op .and, .name "b"] = false ∧
+    layoutOk { choice := fun _ => 1, gap := fun i => if i = 1 then [.block []] else [] }
+      [.name "a", .op .and, .op .and, .name "b"] = true := by decide
+
+/-! ## comments -/
+
+/-- COMMENTS (1): `(* body *)` in front of ANY text — well-formed or not — is dropped -/
+theorem C05_block_comment_skipped (body s : String) (hb : hasClose body.toList = false) :
+    tokenize ("(*" ++ body ++ "*)" ++ s) = tokenize s :=
+  tokenize_block_comment body s hb
+
+/-- COMMENTS (2): `\* body ⏎` in front of any text is dropped; without newline it swallows
+the rest of the text -/
+theorem C05_line_comment_skipped (body s : String) (hb : body.toList.contains '\n' = false) :
+    tokenize ("\\*" ++ body ++ "\n" ++ s) = tokenize s ∧ tokenize ("\\*" ++ body) = [] :=
+  ⟨tokenize_line_comment body s hb, tokenize_line_comment_end body hb⟩
+
+/-- COMMENTS (3): after any well-spelled tokens, a comment (or any blank) followed by ANY text:
+the tokens, then the tokens of that text -/
+theorem C05_comment_after_tokens (lead : List Blank) (ps : List Piece) (c : Blank) (k : List Char)
+    (hl : lead.all Blank.ok = true) (hc : c.ok = true) (h : piecesOk (some c.first) ps = true) :
+    tokenize (String.ofList (layoutChars lead ps (c.chars ++ k))) =
+      ps.map (·.tok) ++ tokenize (String.ofList k) :=
+  tokenize_tokens_comment_rest lead ps c k hl hc h
+
+/-- COMMENTS (4): inserting a comment `c` anywhere into the blanks after a token of an
+admissible text does not change the token string: `(* … *)` anywhere, also directly after the
+token and where there was no blank (`sepOk_blank`); `\* … ⏎` anywhere but directly after `/`
+(`sepOk_line_comment`: `/\` is the conjunction) -/
+theorem C05_comment_between_tokens (lead : List Blank) (fin : Option (List Char)) (t : Tok) (sp : String)
+    (g₁ g₂ : List Blank) (c : Blank) (ps₁ ps₂ : List Piece)
+    (hl : lead.all Blank.ok = true) (hfin : finOk fin = true) (hc : c.ok = true)
+    (hfront : g₁ = [] → sepOk sp.toList (some c.first) = true)
+    (h : piecesOk (finChars fin).head? (ps₁ ++ ⟨t, sp, g₁ ++ g₂⟩ :: ps₂) = true) :
+    tokenize (String.ofList (layoutChars lead (ps₁ ++ ⟨t, sp, g₁ ++ c :: g₂⟩ :: ps₂) (finChars fin))) =
+    tokenize (String.ofList (layoutChars lead (ps₁ ++ ⟨t, sp, g₁ ++ g₂⟩ :: ps₂) (finChars fin))) :=
+  tokenize_insert_blank lead fin t sp g₁ g₂ c ps₁ ps₂ hl hfin hc hfront h
+
+/-- the side condition `hfront` of (4), discharged: a `(* *)` comment may follow every token
+text; a `\*` comment every token text but `/` -/
+theorem C05_comment_may_follow (t : Tok) (sp : String) (hok : t.lexOk = true) (hsp : sp ∈ t.spellings) :
+    (∀ body, sepOk sp.toList (some (Blank.block body).first) = true) ∧
+    (∀ body, sepOk sp.toList (some (Blank.line body).first) = (sp != "/")) :=
+  ⟨fun body => sepOk_blank t sp hok hsp (.block body) rfl, fun _ => sepOk_line_comment t sp hok hsp⟩
+
+/-- UNTERMINATED COMMENT: `(*` without `*)` after any well-spelled tokens is read as `(`
+followed by an illegal character; the parser answers with the syntax error (`RuntimeError`,
+raised by the lexer's `t_error` in the code) after the reductions done so far -/
+theorem C05_unterminated_comment (lead : List Blank) (ps : List Piece) (b : List Char)
+    (hl : lead.all Blank.ok = true) (h : piecesOk (some '(') ps = true) (hb : closeComment b = none) :
+    tokenize (String.ofList (layoutChars lead ps ('(' :: '*' :: b))) = ps.map (·.tok) ++ [.lparen, .bad] ∧
+    ∃ fr, parseE (tokenize (String.ofList (layoutChars lead ps ('(' :: '*' :: b)))) = .error (fr, .syntax) ∧
+      addExpr (String.ofList (layoutChars lead ps ('(' :: '*' :: b))) =
+        tryToReorder (do evalForest fr; M.throw .runtime) := by
+  have ht := tokenize_open_comment lead ps b hl h hb
+  refine ⟨ht, ?_⟩
+  obtain ⟨fr, hfr⟩ := (parseE_bad (ps.map (·.tok) ++ [.lparen, .bad])).2 (by simp)
+  refine ⟨fr, by rw [ht]; exact hfr, ?_⟩
+  unfold addExpr addExprToks
+  rw [ht, hfr]
+  rfl
+
+/-- an ILLEGAL CHARACTER anywhere: whatever the text, if the lexer meets a character it has no
+rule for, the parser answers with the syntax error — never "unexpected end of input", and the
+model parser never runs out of fuel -/
+theorem C05_illegal_character (s : String) :
+    (∀ fr, parseE (tokenize s) ≠ .error (fr, .fuel)) ∧
+    (Tok.bad ∈ tokenize s → ∃ fr, parseE (tokenize s) = .error (fr, .syntax)) :=
+  parseE_bad (tokenize s)
+
+/-! ### non-vacuity: comments of both kinds, with comment-like and formula-like bodies -/
+
+def exGap (i : Nat) : List Blank :=
+  if i % 3 == 0 then [.block "c *".toList]
+  else if i % 3 == 1 then [.nl, .line " x (* ".toList, .tab]
+  else [.sp, .block []]
+
+def exLayout : Layout :=
+  { lead := [.block "lead".toList], choice := fun i => i, gap := exGap, fin := some " end".toList }
+
+example : layoutOk exLayout exToks = true := by decide
+example : tokenize (spellWith exLayout exToks) = exToks := C05_tokenize_spellWith _ _ (by decide)
+example : spellWith exLayout [.name "a", .op .and, .not, .name "b'"] =
+    "(*lead*)a(*c **)&\n\\* x (* \n\t~ (**)b'(*c **)\\* end" := by decide
+example : tokenize "a (* b" = [.name "a", .lparen, .bad] ∧ tokenize "a (*)" = [.name "a", .lparen, .bad] ∧
+    tokenize "a /\\* c\n b" = [.name "a", .op .and, .bad] ∧ tokenize "a / \\* c\n b" = [.name "a", .div, .name "b"] ∧
+    tokenize "(* a *) b (* c \n *)" = [.name "b"] := by decide
+example : closeComment " b".toList = none ∧ hasClose "c *".toList = false ∧ hasClose "a *) b".toList = true := by
+  decide
+
+/-- the whole example formula: every layout above is read as the same tree -/
+example : ∃ t, parse exToks = some t ∧ parse (tokenize (spellWith exLayout exToks)) = some t ∧
+    parse (tokenize (spellWith { choice := fun i => i + 1, gap := fun _ => [] } exToks)) = some t := by
+  rw [C05_tokenize_spellWith exLayout exToks (by decide),
+    C05_tokenize_spellWith { choice := fun i => i + 1, gap := fun _ => [] } exToks (by decide)]
+  cases h : parse exToks with
+  | none => exact absurd h (by decide)
+  | some t => exact ⟨t, rfl, rfl, rfl⟩
 
 end DD
